@@ -15,7 +15,7 @@ CHECKS = {
     note=PPNOTE, technique=PPTECH, design='4/C03'),
  'C04': dict(
     category='model_checking',
-    text='Bounded symbolic execution of the real preprocess_str (rustc MIR) on a family of conditional programs (chains <=3, nesting <=2, define/undef/undefineall/usages inside branches and through macro bodies) with the initial define table and strip_comments as z3 variables; a reference evaluator of IEEE 22.6 runs under the same variables and z3 decides agreement on every intersection of a real path with a reference case; counterexamples are replayed natively. All define tables over the names used are covered for every program of the family; programs outside the family are not.',
+    text='Bounded symbolic execution of the real preprocess_str (rustc MIR) on a family of conditional programs (chains <=3, nesting <=2, define/undef/undefineall/usages inside branches and through macro bodies, conditionals inside the parenthesised text after an object-like usage, one-line layouts where directive white space is the only separator, names written as escaped identifiers, CR LF sources) with the initial define table and strip_comments as z3 variables; a reference evaluator of IEEE 22.6 runs under the same variables and z3 decides agreement on every intersection of a real path with a reference case; counterexamples are replayed natively. All define tables over the names used are covered for every program of the family; programs outside the family are not.',
     note=PPNOTE, technique=PPTECH, design='4/C04'),
  'C09': dict(
     category='model_checking',
@@ -23,15 +23,15 @@ CHECKS = {
     note=PPNOTE, technique=PPTECH, design='4/C09'),
  'C10': dict(
     category='model_checking',
-    text='The real preprocess_str/preprocess_inner MIR on include programs (search order cwd -> include paths in both orders, both quoting styles, macro-named file, absolute path, nesting to depth 3, same file twice, defines/undefs flowing in and out, same-line rule, ignore_include, missing and non-UTF-8 files) with the existence of every candidate path, the define table and ignore_include symbolic; compared with the reference: surviving tokens, returned table, Error variant/payload/Include nesting, list of files opened, origins.',
+    text='The real preprocess_str/preprocess_inner MIR on include programs (search order cwd -> include paths in both orders, both quoting styles, macro-named file, absolute path, nesting to depth 3, same file twice, defines/undefs flowing in and out, same-line rule incl. text runs starting on earlier lines, files without a final newline, define lines with trailing blanks/comments naming the file, a top path without parent directory, ignore_include, missing and non-UTF-8 files) with the existence of every candidate path, the define table and ignore_include symbolic; compared with the reference: surviving tokens, returned table, Error variant/payload/Include nesting, list of files opened, origins.',
     note=PPNOTE + ' File system = symbolic existence per path + fixed content (models_pp.SymFS).', technique=PPTECH, design='4/C10'),
  'C11': dict(
     category='model_checking',
-    text='Returned define table: programs with define/undef/undefineall/redefinition (plain, in dead branches, through macro bodies) run on the real MIR with the initial table symbolic; presence (as z3 terms), formals, defaults, body text and body range of every entry compared with the reference table on every feasible intersection. Threading: for pairs (f1,f2) one symbolic execution runs the real code on f1, on f2 with the table returned for f1, and on f1++f2, and the solver looks for an initial table under which texts or final tables differ.',
+    text='Returned define table: programs with define/undef/undefineall/redefinition (plain, in dead branches, through macro bodies, names written as escaped identifiers, bodies that look like comments under both values of strip_comments, CR LF sources) run on the real MIR with the initial table symbolic; presence (as z3 terms), formals, defaults, body text and body range of every entry compared with the reference table on every feasible intersection. Threading: for pairs (f1,f2) one symbolic execution runs the real code on f1, on f2 with the table returned for f1, and on f1++f2, and the solver looks for an initial table under which texts or final tables differ.',
     note=PPNOTE, technique=PPTECH, design='4/C11'),
  'C18': dict(
     category='model_checking',
-    text='strip_comments symbolic on programs with comments as sole separators, next to directives/usages, in define bodies (+ emission-site and conditional families): (a) reference cross-check of tokens/table under the flag, (b) relational check between every strip=true and strip=false real path with compatible conditions (non-comment tokens, error, table), (c) no comment token in strip=true output outside kept `define lines.',
+    text='strip_comments symbolic on programs with comments as sole separators, white space of directives as sole separator, comments next to directives/usages and at the edges of macro bodies, `define bodies holding //, strings with slashes and continuations, CR LF sources (+ emission-site and conditional families): (a) reference cross-check of tokens/table under the flag, (b) relational check between every strip=true and strip=false real path with compatible conditions (non-comment tokens, error, table), (c) no comment token in strip=true output outside kept `define lines.',
     note=PPNOTE, technique=PPTECH + '; relational (2-run) query over path conditions', design='4/C18'),
 }
 
@@ -44,23 +44,23 @@ WNOTE = 'MIR of nightly rustc; callees of the wrappers replaced by recording stu
 CHECKS.update({
  'C01': dict(category='model_checking', text='V1, one inductive verification condition per production (all ~1300 bodies incl. the symbol/keyword terminals, white_space, the imperative lexers with concat/into_locate): assuming each callee returns a node tiling the span it consumed, the node built tiles [p_in,p_out) with non-empty adjacent leaves in field order and line = L(offset); strict entries end at the end of the text. Unbounded in input length (inductive), conditional on the nom / nom_locate contracts. Iteration order and get_str are decided by C16.',
              note=GNOTE, technique=GTECH, design='4/C01'),
- 'C05': dict(category='model_checking', text='IEEE 22.5.1 define/usage programs (formals with/without defaults, omitted/empty actuals, the three error cases by name, actuals with nested brackets/strings/commas, `` `" `\\`" continuation lines, // in bodies, nesting in bodies and arguments, redefinition between uses, caller-supplied macros) on the real preprocess_str + resolve_text_macro_usage + split_text MIR with define table and strip_comments symbolic, token-wise against a text-level reference expander.',
+ 'C05': dict(category='model_checking', text='IEEE 22.5.1 define/usage programs (formals with/without defaults, omitted/empty actuals, the three error cases by name, actuals with nested brackets/strings/commas, `` `" `\\`" continuation lines, // in bodies, nesting in bodies and arguments, redefinition between uses, caller-supplied macros, object-like macros followed by a parenthesised list, CR LF line ends incl. continuations) on the real preprocess_str + resolve_text_macro_usage + split_text MIR with define table and strip_comments symbolic, token-wise against a text-level reference expander.',
              note=PPNOTE, technique=PPTECH, design='4/C05'),
- 'C06': dict(category='model_checking', text='Directive-free texts (every lexical piece kind alone, at end of input, and in adjacent pairs with 6 separators; CR/LF/CRLF; non-ASCII) through the real preprocess_str MIR with ignore_include and the define table symbolic: Ok, identical text, origin(i)=(path,i) for every byte; the three admissible lexical faults give Preprocess(path, offset<=fault). Fixed point: every successful path of the other program families is re-run on its own output inside the same symbolic execution.',
+ 'C06': dict(category='model_checking', text='Directive-free texts (every lexical piece kind alone, at end of input, and in adjacent pairs with 6 separators; CR/LF/CRLF; non-ASCII) through the real preprocess_str MIR with ignore_include and the define table symbolic: Ok, identical text, origin(i)=(path,i) for every byte; the three admissible lexical faults give Preprocess(path, offset<=fault). Fixed point: every successful path of the other program families is re-run on its own output inside the same symbolic execution, strip_comments symbolic. Bounded lexical queries: all_consuming(preprocessor_text) on all byte strings <= N over two alphabets (incl. escaped identifiers with non-ASCII and control characters) accepts exactly the reference language; string_literal_impl.',
              note=PPNOTE, technique=PPTECH, design='4/C06'),
- 'C07': dict(category='model_checking', text='One inductive step instead of call histories: for an arbitrary prior state of the three parser thread-locals (stack depths 0..3, top selector any of 9, memo empty/non-empty, all symbolic) the real init() MIR re-establishes the initial state and touches exactly these three; each of the five public parser entries, run from every such state with the grammar function stubbed, calls it on the initial state with its own input and returns its result; the static/thread_local items of all crates are enumerated from the sources (none outside the parser crate) and #[recursive_parser] functions counted against nom_recursive\'s 128 limit.',
+ 'C07': dict(category='model_checking', text='One inductive step instead of call histories: for an arbitrary prior state of the three parser thread-locals (stack depths 0..3, top selector any of 9, memo empty/non-empty, all symbolic) each of the five public parser entries AND the start symbol it calls are executed from MIR with the sub-parsers of the start symbol stubbed: the first sub-parser that runs must see the initial state (wherever the reset lives: init(), the entry, the top of the start symbol), the entry hands its input span to its start symbol and returns its result; the static/thread_local items of all crates are enumerated from the sources (none outside the parser crate) and the number of #[recursive_parser] functions is compared with the capacity of nom_recursive\'s flag table selected by the cargo features the workspace enables (64/128/256).',
              note=WNOTE + ' LocalKey::with / RefCell / Vec::clear / PackratStorage::clear modelled as single-thread cells.', technique='MIR symbolic execution of init() and the entry points over a symbolic thread-local pre-state (z3 chooses depths/contents); source scan for global state', design='4/C07'),
- 'C08': dict(category='model_checking', text='Totality of the preprocessor, the wrappers and the grammar\'s panic sites: every MIR assert / unwrap / expect / slice / index / arithmetic site reached while the real preprocess_str / preprocess / wrappers run on the program families of C03-C06, C09-C11, C18 and on a totality family (odd `include-macro expansions, multi-byte characters at the end of every piece kind) is a panic obligation discharged by z3 under the path condition (define table, flags, file existence symbolic); missing / non-UTF-8 files give File{path tried} / ReadUtf8(path), wrapped once per include level; concat(..).unwrap() / ret.unwrap() sites of every production body (Engine G). A feasible panic is replayed natively (panic message or process abort). Whole-parse panic-freedom on token soup and Display/Debug are outside.',
+ 'C08': dict(category='model_checking', text='Totality of the preprocessor, the wrappers and the grammar\'s panic sites: every MIR assert / unwrap / expect / slice / index / arithmetic site reached while the real preprocess_str / preprocess / wrappers run on the program families of C03-C06, C09-C11, C18 and on a totality family (odd `include-macro expansions, multi-byte characters at the end of every piece kind) is a panic obligation discharged by z3 under the path condition (define table, flags, file existence symbolic); missing / non-UTF-8 files give File{path tried} / ReadUtf8(path), wrapped once per include level; concat(..).unwrap() / ret.unwrap() sites of every production body (Engine G); the API wrappers over texts whose first/last bytes have no origin with the error position symbolic; include programs whose top path has no parent directory. A feasible panic is replayed natively (panic message or process abort). Whole-parse panic-freedom on token soup and Display/Debug are outside.',
              note=PPNOTE + ' ' + GNOTE, technique=PPTECH + '; panic obligations = MIR asserts / unwrap / slice models under the path condition', design='4/C08'),
- 'C12': dict(category='model_checking', text='V2 scope pairing for every production body: on every exit path (normal, each `?`, early return) the directive stack and the keyword-version stack are as on entry, except version_specifier/keywords_directive (+1 version on success) and endkeywords_directive (-1); plus the trivia alphabet: the character classes of the primitives white_space is built from cover blank, tab, form feed, newline. A leak is confirmed on the real parser by scope depths after parsing probe texts.',
+ 'C12': dict(category='model_checking', text='V2 scope pairing for every production body: on every exit path (normal, each `?`, early return) the directive stack and the keyword-version stack are as on entry, except version_specifier/keywords_directive (+1 version on success) and endkeywords_directive (-1); plus the trivia alphabet decided by the bounded lexical engine on the real white_space body (blank, tab, form feed, newline accepted as 1-byte texts, vertical tab and other control bytes refused) and bounded lexical queries for comment / white_space / symbol(t). A reported stack effect is confirmed on the real parser by scope depths after parsing probe texts, including texts accepted as a whole after which the keyword-version stack must hold exactly the `begin_keywords still open.',
              note=GNOTE, technique=GTECH, design='4/C12'),
- 'C13': dict(category='model_checking', text='is_keyword / begin_keywords / end_keywords / current_version from MIR with the version stack (depth 0..3, top any of 9 selectors) and the word (index into the universe of all reserved words + probes) symbolic: is_keyword(w) <=> w in the reference set of the selector in force (IEEE 1800-2017 22.14, oracle/keywords/*.txt; 1800-2017 when the stack is empty); every specifier pushes its selector, unknown ones push nothing; the identifier lexers (Engine G, is_keyword symbolic) have no successful path under is_keyword and none that skips the lookup.',
+ 'C13': dict(category='model_checking', text='is_keyword / begin_keywords / end_keywords / current_version from MIR with the version stack (depth 0..3, top any of 9 selectors) and the word (index into the universe of all reserved words + probes) symbolic: is_keyword(w) <=> w in the reference set of the selector in force (IEEE 1800-2017 22.14, oracle/keywords/*.txt; 1800-2017 when the stack is empty); every specifier pushes its selector, unknown ones push nothing; the lookup may be a loop or slice::binary_search (std algorithm on the real, possibly unsorted table; the word is an index into the sorted universe so comparisons are index comparisons); the identifier lexers (Engine G, is_keyword symbolic) have no successful path under is_keyword and none that skips the lookup; the names of `define and of macro usages are lexed with the set of directive names on top of the version stack (scope in force recorded at every sub-parser call of text_macro_definition / text_macro_usage); bounded lexical queries for keyword(t) and the identifier lexers.',
              note=WNOTE + ' ' + GNOTE, technique='MIR symbolic execution of the keyword lookup over a symbolic word/stack + Engine G on the identifier lexers', design='4/C13'),
  'C14': dict(category='model_checking', text='Mechanisms: strict entries end at the end of the text and the delimiter helpers succeed only after opener, inner, closer (Engine G); parse_sv_pp/parse_lib_pp map a parser failure at symbolic position p to Error::Parse(origin(p)) and preprocess_str maps a preprocessor-grammar failure at p to Preprocess((path being read, p)) (wrapper MIR, failure kind and position symbolic); concrete lexical faults in the top file and behind an include report an offset not after the fault.',
              note=WNOTE + ' ' + GNOTE, technique='wrapper MIR with symbolic failure position + Engine G facts + concolic fault texts', design='4/C14'),
  'C15': dict(category='model_checking', text='Mode switch: parse_X_pp selects the incomplete parser iff allow_incomplete and nothing else differs; never fails: no path of source_text_incomplete / library_text_incomplete returns Err, with `description`/`library_description` proved non-nullable and free of hard failures by the whole-grammar fixpoints; agreement: the incomplete bodies perform the same calls before the repetition and build the node from the same pieces as the strict ones.',
              note=WNOTE + ' ' + GNOTE, technique=GTECH + '; wrapper MIR with allow_incomplete symbolic', design='4/C15'),
- 'C16': dict(category='model_checking', text='For every node type of the syntax tree (all 1243 RefNode variants) a bounded tree value is generated from the type tables; the presence of every top-level Option, the length (0..2) of every top-level Vec and the variant of a top-level enum are chosen by the solver (<=1 deviation from the fullest shape at once, 2 in thorough). The real iterators and conversions (derive Node::next / IntoIterator, From<&(T0..T10)>, Vec/Option/Box/Paren/List impls, Iter, EventIter, RefNode::next/into_iter, TryFrom<&T> for Locate, SyntaxTree::get_str/get_str_trim) run from MIR and are compared with an independent walk by declared field order: pre-order, balanced nested events, Enter sequence = plain iteration, first-to-last(-non-whitespace) token bounds.',
+ 'C16': dict(category='model_checking', text='For every node type of the syntax tree (all 1243 RefNode variants) a bounded tree value is generated from the type tables; the presence of every top-level Option, the length (0..2) of every top-level Vec and the variant of a top-level enum are chosen by the solver (<=1 deviation from the fullest shape at once, 2 in thorough). The real iterators and conversions (derive Node::next / IntoIterator, From<&(T0..T10)>, Vec/Option/Box/Paren/List impls, Iter, EventIter, RefNode::next/into_iter, TryFrom<&T> for Locate, SyntaxTree::get_str/get_str_trim of a node and of its children tuple, Iter::event also on a partially advanced iterator, and the expansions of unwrap_node! (Symbol|Keyword in both orders, WhiteSpace|Locate, Locate) and unwrap_locate! instantiated by guarded hooks) run from MIR and are compared with an independent walk by declared field order: pre-order, balanced nested events, Enter sequence = plain iteration, first-to-last(-non-whitespace) token bounds, first node of the requested kinds in pre-order.',
              note='MIR of nightly rustc; Vec/Option/Box models; reference walk lib/treegen.py.', technique='MIR symbolic execution of the traversal code on solver-chosen tree shapes of every node type', design='4/C16'),
  'C20': dict(category='model_checking', text='Each public wrapper (parse_sv, parse_sv_str, parse_lib, parse_lib_str, parse_sv_pp, parse_lib_pp, preprocess -> preprocess_inner) is executed from MIR with recording stubs for its callees; ignore_include, allow_incomplete, strip_comments, the preprocessor/parser outcome and the error position are symbolic and the file content ranges over a family incl. BOM, CRLF, empty, non-UTF-8, missing. Obligations by callee PARAMETER NAME: same path/defines/include paths, strip_comments=false for the parse family, flags in the right slots, depths 0, file content handed over unchanged, results passed through. Counterexamples are confirmed by a native differential run of all entry points on a probe corpus.',
              note=WNOTE, technique='MIR symbolic execution of the wrappers with recording stubs (argument flow by parameter name); native differential replay', design='4/C20'),
